@@ -46,7 +46,7 @@ func (c11) Components() map[string][]string {
 	}
 }
 func (c11) ProbeNames() []string {
-	return []string{"attach-writable-fails", "attach-file.New-ro", "attach-OpenFromPath-ro", "attach-diskfs.Open-ro", "attach-rw-reads-only", "mutator-refused", "disk-level"}
+	return []string{"attach-writable-fails", "attach-file.New-ro", "attach-OpenFromPath-ro", "attach-diskfs.Open-ro", "attach-rw-reads-only", "mutator-refused", "disk-level", "gpt-from-backup"}
 }
 func (c11) Budget(tier string) (int, int, int) {
 	if tier == "thorough" {
@@ -55,8 +55,8 @@ func (c11) Budget(tier string) (int, int, int) {
 	return 45, 1 << 30, 120
 }
 
-var c11Mutators = []string{"mkdir", "create", "openw", "opena", "opent", "write", "rename", "remove", "setlabel", "chmod", "chown", "chtimes", "symlink", "partition", "writepart", "createfs"}
-var c11Readers = []string{"readdir", "readfile", "stat", "openread", "label", "gettable", "getfs", "readpart", "readmissing", "openmissing", "statmissing", "readdirmissing"}
+var c11Mutators = []string{"mkdir", "create", "openw", "opena", "opent", "openwo", "openwoc", "write", "rename", "remove", "setlabel", "chmod", "chown", "chtimes", "symlink", "partition", "writepart", "createfs"}
+var c11Readers = []string{"gettable", "readdir", "readfile", "stat", "openread", "label", "gettable", "getfs", "readpart", "readmissing", "openmissing", "statmissing", "readdirmissing"}
 
 func (c11) Gen(r *core.Rng, tier string, idx int) *core.Trace {
 	t := &core.Trace{Cfg: map[string]int64{}, CfgS: map[string]string{}}
@@ -64,6 +64,7 @@ func (c11) Gen(r *core.Rng, tier string, idx int) *core.Trace {
 	t.Cfg["attach"] = int64(r.PickW(35, 30, 10, 10, 15)) // 0 Writable fails, 1 file.New ro, 2 OpenFromPath ro, 3 diskfs.Open ro, 4 rw (reads only)
 	t.Cfg["layout"] = int64(r.PickW(60, 20, 20))         // 0 whole device, 1 gpt partition, 2 mbr partition
 	t.Cfg["sqcomp"] = int64(r.Intn(4))
+	t.Cfg["gptbad"] = int64(r.PickW(65, 35)) // gpt layout: the primary header fails its CRC, the table comes from the backup copy
 	n := 3 + r.Intn(25)
 	for i := 0; i < n; i++ {
 		if r.Chance(55) {
@@ -130,6 +131,12 @@ func (p c11) Exec(t *core.Trace) *core.Result {
 				res.Evals = 1
 				res.Probe("build-failed")
 				return res
+			}
+			if t.I("gptbad") == 1 {
+				// a damaged primary header: readers fall back to the backup GPT - and must still only read
+				b := d.Peek(512+56, 1)
+				d.Poke(512+56, []byte{b[0] ^ 0xff})
+				res.Probe("gpt-from-backup")
 			}
 		} else {
 			sp := mbrSpec{Parts: []mbrPart{{Type: 0x83, Start: uint32(first), Size: uint32(last - first + 1)}}}
@@ -252,8 +259,8 @@ func (p c11) Exec(t *core.Trace) *core.Result {
 				if cerr == nil {
 					f.Close()
 				}
-			case "openw", "opena", "opent":
-				flag := map[string]int{"openw": os.O_RDWR, "opena": os.O_RDWR | os.O_APPEND, "opent": os.O_RDWR | os.O_TRUNC}[o.K]
+			case "openw", "opena", "opent", "openwo", "openwoc":
+				flag := map[string]int{"openw": os.O_RDWR, "opena": os.O_RDWR | os.O_APPEND, "opent": os.O_RDWR | os.O_TRUNC, "openwo": os.O_WRONLY, "openwoc": os.O_WRONLY | os.O_CREATE}[o.K]
 				var f filesystem.File
 				f, cerr = fs.OpenFile(target, flag)
 				if cerr == nil {
@@ -372,7 +379,7 @@ func (p c11) Exec(t *core.Trace) *core.Result {
 			attempted = true
 			if cerr == nil {
 				cl := "C11.mutator-accepted"
-				if o.K == "openw" || o.K == "opena" {
+				if o.K == "openw" || o.K == "opena" || o.K == "openwo" {
 					cl = "C11.open-for-write-accepted"
 				}
 				res.V = &core.Violation{Clause: cl, Trigger: trig, Locus: locus, Detail: fmt.Sprintf("mutating call %s returned nil on a read-only attachment (%s); the image is unchanged", o.K, attachName), OpIndex: i}
